@@ -10,6 +10,7 @@ The algebra done here is fraction bookkeeping only; every verdict "equal / order
 is the solver's (``Ctx.prove_equal``, ``Ctx.check``).
 """
 import math
+import os
 import time
 import random
 from fractions import Fraction
@@ -344,6 +345,23 @@ class Ctx:
             r = s.check()
         except z3.Z3Exception:
             r = z3.unknown
+        if str(r) == "unknown" and kind in ("obligation", "sign", "path") and os.environ.get("SX_Z3_FALLBACK", "1") == "1":
+            # second opinion from the plain nlsat pipeline (no preprocessing portfolio): it decides in seconds some
+            # obligations on which the default QF_NRA tactic runs into its time-out, and vice versa
+            s2 = z3.Tactic("qfnra-nlsat").solver()
+            s2.set("timeout", max(int(timeout) // 2, 1000))
+            for f in side:
+                s2.add(f.z3(self))
+            for g in goals:
+                s2.add(g.z3(self))
+            try:
+                r2 = s2.check()
+            except z3.Z3Exception:
+                r2 = z3.unknown
+            self.n_fallback = getattr(self, "n_fallback", 0) + 1
+            if str(r2) != "unknown":
+                r, s = r2, s2
+                self.n_fallback_decided = getattr(self, "n_fallback_decided", 0) + 1
         dt = time.time() - t
         self.nq += 1
         self.tq += dt
